@@ -387,7 +387,12 @@ class DQN(RLAlgorithm):
 
                     action_mask = info.get("action_mask", None)
                     action = self.get_action(obs, epsilon=0.0, action_mask=action_mask)
-                    obs, reward, done, trunc, info = env.step(action)
+                    if hasattr(env, "num_envs"):
+                        obs, reward, done, trunc, info = env.step(action)
+                    else:
+                        # plain (non-vectorised) environment: un-batch the action, batch the flags
+                        obs, reward, done, trunc, info = env.step(action[0])
+                        done, trunc = np.atleast_1d(done), np.atleast_1d(trunc)
                     step += 1
                     scores += np.array(reward)
                     for idx, (d, t) in enumerate(zip(done, trunc)):
